@@ -259,6 +259,21 @@ func New(bufSize int64, authName string) (*Broker, error) {
 	return b, nil
 }
 
+// NewDefault creates a broker from the zero-value Server: every setting is the
+// library's default, including the process-wide "mem" session and topic
+// providers and the accept-all authenticator. The default providers are shared
+// by every default broker of the process, so a test uses one such broker and
+// client identifiers / topics of its own per case.
+func NewDefault() (*Broker, error) {
+	regMu.Lock()
+	defer regMu.Unlock()
+	b := &Broker{gate: &gateProvider{}, Name: "verif-unregistered", Srv: &service.Server{}}
+	if err := b.Srv.VerifInit(); err != nil {
+		return nil, err
+	}
+	return b, nil
+}
+
 // Dial opens a new in-process connection to the broker.
 func (b *Broker) Dial(name string) *Conn { return b.DialOpt(name, false) }
 
